@@ -51,14 +51,27 @@ ASSUMPTIONS = [
     "C05_trailing_loop_is_absorb/C05_trailing_outcome, C05_escape_line_sim and the differential run only",
     "prefix preservation (C05_*_prefix_same): at the level that consumed the `--` for command-line entries outside "
     "`touched` (= the positional, its groups, its overrides relation); at the levels above it for all entries",
+    "round 3: the prefix-preservation / no-dispatch theorems (C05_parse_top_prefix_any, C05_level_prefix_any, "
+    "C05_trailing_any_base) are stated for the boolean class esc_class_h: plain, valid, no ignore_errors and no "
+    "subcommand named `--` at any level -- every shape of positionals, hyphen-accepting arguments and global arguments "
+    "allowed; entries of global arguments (rewritten by fill_in_global_values at every level) are not compared; when an "
+    "argument with allow_hyphen_values is still being collected at the `--` (hyphen_exception, the documented exception) "
+    "nothing is claimed.  Delivery with hyphen-accepting and global arguments present: class esc_class_hg (esc_class_h "
+    "and no positional shares an id with a global argument): delivered_h (sink_from / chainc levels), delivered_a (sink1: "
+    "the positional at index 1 is an Append positional with num_args(1), the positional counter cannot move, the "
+    "positional does not override itself).  dont_delimit_trailing_values as a global setting: c_gset of the root "
+    "(C05_global_ddt_every_level, for plain definitions)",
     "no multicall, no Command::defer, built-in value parsers only; OsStr = bytes (Unix)",
 ]
 TECHNIQUE = ("Coq proof (the parse loop with trailing_values set equals a classification-free loop `absorb`; one walk over "
              "every branch of the loop body shows an iteration reads the rest of the line only through its first token, "
              "hence by induction the state at the `--` does not depend on the tail (two-tail simulation carrying the "
              "invariant 'a pending argument takes values'); composition through resolve_pending/react, add_env, "
-             "add_defaults, validate, the recursion into subcommands, do_parse and parse_top) + extracted-model/"
-             "implementation correspondence + metamorphic oracle on the implementation")
+             "add_defaults, validate, the recursion into subcommands, do_parse and parse_top; round 3: a frame invariant of "
+             "the trailing-mode loop ('the occurrence being collected is a positional's') for every shape of positionals, "
+             "the same walk without the no-hyphen-values hypothesis, induction over the tail for one-occurrence-per-token "
+             "positionals, the propagation of global settings through the build step, fill_in_global_values as a frame) + "
+             "extracted-model/implementation correspondence + metamorphic oracle on the implementation")
 LEVEL_TEXT = ("Machine-checked theorems (Coq 8.16, closed under the global context) about the executable model of "
               "clap_builder's parser, up to parse_top: for every definition of the boolean class esc_class (valid, no "
               "short flag-subcommands, no ignore_errors / allow_hyphen_values / subcommand named `--` / global args), "
@@ -78,14 +91,29 @@ LEVEL_TEXT = ("Machine-checked theorems (Coq 8.16, closed under the global conte
               "argument is never pending is proved for all reachable states; the phases after the loop, the help "
               "subcommand and the recursion into subcommands are covered).  Underneath: once trailing_values is set the loop equals, for every "
               "command, token list and state, a loop that only compares a token with a value terminator and pushes it.  "
+              "Round 3 (class esc_class_h: no restriction on positionals, allow_hyphen_values or global arguments): in "
+              "trailing mode no token reaches an argument that is not a positional -- an option still collecting values "
+              "when the `--` arrives is closed in the state the `--` was met in, and two successful parses of the same "
+              "prefix with different tails agree on every command-line entry no positional can touch (entries of global "
+              "arguments excepted) and record no subcommand at the consuming level (subcommand_precedence_over_arg "
+              "included), for Append/num_args(1) positionals, terminators, low-index multiples alike; levels that declare "
+              "hyphen-accepting arguments are covered, the only other outcome being the documented exception (such an "
+              "argument is still being collected at the `--`), reached in a tail-independent state; an Append positional "
+              "with num_args(1) receives one value group per tail token, in order (class sink1); with "
+              "dont_delimit_trailing_values given as a global setting every level of every subcommand chain has it and the "
+              "tail -- first token included, whatever the positional held before the `--` -- is stored unsplit at any depth.  "
+              "Refuted and replayed on the implementation (model = implementation): a tail token equal to the positional's "
+              "value_terminator is consumed, not delivered (C05_terminator_tail_dropped_refuted); low-index multiples "
+              "(C05_low_index_tail_shape_refuted).  "
               "The model is tied to clap_builder by running the extracted model and the real crate on the same generated "
               "cases on every check; an independent python oracle (values end with the tail, no tail token selects a "
               "subcommand/help/version, same outcome and same command-line entries as with an innocuous tail) runs on the "
               "implementation's output.")
-LEVEL_NOTE = ("Trusted: Coq kernel, extraction, OCaml driver, Rust harness, generators. Differential/oracle only: commands "
-              "outside esc_class / sink_from / chainc (hyphen-accepting arguments, Append num_args(1) positionals, "
-              "terminators, globals, ignore_errors)."
-              "")
+LEVEL_NOTE = ("Trusted: Coq kernel, extraction, OCaml driver, Rust harness, generators. Differential/oracle only: delivery "
+              "outside sink_from / chainc / sink1 (terminators -- where it is false --, low-index multiples, positionals "
+              "overriding each other, overflow into external subcommands), help/version independence for trees with "
+              "hyphen-accepting arguments, the tail after the hyphen-values exception, ignore_errors, subcommands named "
+              "`--`, short flag-subcommands.")
 
 SEP = " ;; "
 INNOCUOUS = [b"zz", b"w7", b"q"]
